@@ -198,6 +198,49 @@ def parse_template(path, unit, seen=None):
     return chunks
 
 
+def _pure_renaming(base, cur):
+    """base and cur differ only by a consistent renaming of identifiers (new names unused in base) -> {old: new}, else None"""
+    if len(base) != len(cur):
+        return None
+    ren, inv = {}, {}
+    used = set(base)
+    for a, b in zip(base, cur):
+        if a == b:
+            if a in ren or a in inv:
+                return None
+            continue
+        if not (re.match(r"^[a-z_][a-z0-9_]*$", a) and re.match(r"^[a-z_][a-z0-9_]*$", b)) or a in lex_keywords() or b in lex_keywords():
+            return None
+        if ren.get(a, b) != b or inv.get(b, a) != a or b in used:
+            return None
+        ren[a] = b
+        inv[b] = a
+    # every occurrence of a renamed identifier must have been renamed
+    for a, b in zip(base, cur):
+        if a in ren and b != ren[a]:
+            return None
+    # only LOCAL VARIABLES may be renamed: never a field, method, function, path segment or macro (a spec clause that names a
+    # field must keep naming that field), and the identifier must be bound somewhere in the function (let / closure parameter / pattern)
+    for name in ren:
+        bound = False
+        for i, t in enumerate(base):
+            if t != name:
+                continue
+            prev = base[i - 1] if i > 0 else ""
+            nxt = base[i + 1] if i + 1 < len(base) else ""
+            if prev in (".", "::") or nxt in ("(", "::", "!", "{"):
+                return None
+            if prev in ("let", "mut", "|", "ref") or (prev in ("(", ",") and nxt in (",", ")", ":", "|")):
+                bound = True
+        if not bound:
+            return None
+    return ren or None
+
+
+def lex_keywords():
+    return {"let", "mut", "if", "else", "match", "fn", "self", "return", "for", "in", "while", "loop", "break", "continue", "as", "ref", "move", "true", "false", "pub", "use", "impl", "struct", "enum", "const", "static", "where", "async", "await", "dyn", "crate", "super", "mod", "type", "trait", "unsafe"}
+
+
 def build_region(r):
     """fills r.out_text, r.changed, r.firings; raises Inconclusive"""
     try:
@@ -216,9 +259,20 @@ def build_region(r):
                 cur = cur[1:]   # trait impl methods carry no visibility
             ann = lex.tokenize(r.body)
             base = erase.erase(ann)
-            if base == cur:
+            ren = _pure_renaming(base, cur) if base != cur else None
+            if ren:
+                # the current text is the proved text with local identifiers renamed consistently: rename them in the annotations too
+                ann = [ren.get(t, t) for t in ann]
+                base = erase.erase(ann)
+                r.firings.append({"rule": "R-rename", "where": "%s::%s" % (path, r.name), "before": " ".join(sorted(ren)), "after": " ".join(ren[k] for k in sorted(ren)),
+                                  "note": "local identifiers renamed consistently in /repo: the same renaming is applied to the annotations (alpha-equivalence)"})
+            if base == cur and not ren:
                 r.out_text = r.body
                 r.changed = False
+            elif base == cur:
+                r.out_text = lex.render(ann, "    ")
+                r.changed = True
+                r.diff = "identifiers renamed: " + ", ".join("%s -> %s" % (k, ren[k]) for k in sorted(ren))
             else:
                 r.dropped = []
                 coarse = bool(r.opts.get("_coarse"))
